@@ -38,7 +38,10 @@ def relclose(a, b, rel):
 
 def compare_q(ck, drv, c, out):
     """q() and norm of the implementation vs the model. Rat (exact) when the case is dyadic."""
-    mode = "r" if c["dyadic"] else "f"
+    lowp = M.low_precision(c)
+    # float32 results (or the float32 literal 1/3 of JC69.q under default float32): relative to the largest entry
+    loose = 1e-5 if lowp else (1e-6 if M.regime_of(c) == "f32default" and c["kind"] in ("JC69", "GeneralJC69") else None)
+    mode = "r" if c["dyadic"] and not loose else "f"
     reqs = [M.q_request(c, s, mode) for s in range(c["S"])]  # parameter slices
     reps = drv.ask_many(reqs)
     n = c["n"]
@@ -55,7 +58,9 @@ def compare_q(ck, drv, c, out):
         for i in range(n):
             for j in range(n):
                 x = float(Q[i, j])
-                if mode == "r":
+                if loose:
+                    same = abs(x - float(mq[i][j])) <= loose * max(1.0, float(np.abs(Q).max()))
+                elif mode == "r":
                     same = M.frac(x) == mq[i][j]
                 elif i != j or ordered:
                     same = x == mq[i][j]
@@ -67,7 +72,7 @@ def compare_q(ck, drv, c, out):
                     return False
         if out["norm"] is not None:
             x = out["norm"][s]
-            same = (M.frac(x) == mnorm) if mode == "r" else abs(x - mnorm) <= 1e-13 * abs(x)
+            same = (M.frac(x) == mnorm) if mode == "r" else abs(x - float(mnorm)) <= (loose or 1e-13) * abs(x)
             if not same:
                 ck.mismatch("norm differs", {"case": c, "slice": s, "impl": x, "model": str(mnorm)})
                 return False
@@ -84,10 +89,12 @@ def compare_p(ck, drv, c, out, lean_taylor=True):
         if c["kind"] in ("JC69", "GeneralJC69"):
             reqs = [(f"jcpt {M.f2h(t)}" if c["kind"] == "JC69" else f"gjcpt {n} {M.f2h(t)}") for t in ts]
             for b, rep in enumerate(drv.ask_many(reqs)):
-                if rep == "bad-op" or not relclose(P[b], M.parse_mat(rep, n), CLOSE):
+                # float32 results: absolute (0.25 - 0.25 exp(..) cancels for short branches)
+                if rep == "bad-op" or not (np.abs(P[b] - M.parse_mat(rep, n)).max() <= 1e-6 if M.low_precision(c)
+                                           else relclose(P[b], M.parse_mat(rep, n), CLOSE)):
                     ck.mismatch("closed form differs", {"case": c, "slice": s, "t": ts[b]})
                     ok = False
-        if c["kind"] in M.EIGEN_PATH:
+        if c["kind"] in M.EIGEN_PATH and not M.low_precision(c):
             eig = out.get("eig")
             if not eig:
                 ck.mismatch("could not observe eigen decomposition", {"case": c})
@@ -128,7 +135,7 @@ def compare_p(ck, drv, c, out, lean_taylor=True):
             reqs = [f"taylor {n} {M.f2h(t)} {M.mat_words(fr)} {M.mat_words(Q)}" for t in ts[1:3]]
             for b, rep in zip((1, 2), drv.ask_many(reqs)):
                 T = M.parse_mat(rep, n) if rep != "bad-op" else None
-                tol = M.tol_for(Q / nrm * ts[b], fr)
+                tol = M.tol_for(Q / nrm * ts[b], fr, "f32in" if M.reference_low_precision(c) else "f64")
                 if T is None or np.abs(T - P[b]).max() > tol:
                     ck.mismatch("p_t differs from Lean Taylor exp(t Q / norm)",
                                 {"case": c, "slice": s, "t": ts[b], "tol": tol,
@@ -174,7 +181,9 @@ def plan(ck):
                 cases.append(M.gen_case(rng, kind))
         for n in (2, 3, 4, 5, 20, 61):
             cases.append(M.gen_case(rng, "GeneralJC69", n=n))
-        for code in range(15):
+        codes = list(range(15))
+        rng.shuffle(codes)  # the order in which the genetic codes are built in this process varies with the seed
+        for code in codes:
             cases.append(M.gen_case(rng, "MG94", dyadic=True, code=code))
             if th or code % 5 == rng.randrange(5):
                 cases.append(M.gen_case(rng, "MG94", dyadic=False, code=code,
@@ -195,6 +204,53 @@ def plan(ck):
                 rng.shuffle(ups)
                 c["updates"] = ups if (th or kind != "MG94") else ups[:3]
                 cases.append(c)
+    # special but valid values: kappa = 1, all exchangeabilities equal, uniform frequencies (degenerate spectrum),
+    # alpha = beta = kappa = 1, a mapping that sends everything to one rate; and batches whose sample count equals
+    # the state count with ONE row holding the special value
+    def special(kind, **kw):
+        c = M.gen_case(rng, kind, dyadic=False, route={"kind": "ctor"}, **kw)
+        for key in ("updates", "deepcopy", "move"):
+            c.pop(key, None)
+        c["regime"] = "f64"
+        c["ts"] = [[r[0], r[1], r[2], r[1] + r[2]] for r in c["ts"]]
+        return c
+
+    for batch in ("none", "all"):
+        c = special("HKY", batch=batch)
+        if batch == "all":
+            c = special("HKY", batch="all")
+            while c["S"] != 3:
+                c = special("HKY", batch="all")
+        c["params"]["kappa"][0] = [1.0]
+        cases.append(c)
+        c = special("HKY", batch=batch)
+        c["params"]["frequencies"][0] = [0.25] * 4
+        c["params"]["kappa"][-1] = [1.0]
+        cases.append(c)
+        c = special("GTR", batch=batch)
+        c["params"]["rates"][0] = [1.0] * 6
+        c["params"]["frequencies"][-1] = [0.25] * 4
+        cases.append(c)
+        c = special("GeneralSymmetric", batch=batch, n=4)
+        c["mapping"] = [0] * 6
+        c["params"]["rates"] = [[r[0]] for r in c["params"]["rates"]]
+        c["params"]["frequencies"][0] = [0.25] * 4
+        cases.append(c)
+        c = special("GeneralNonSymmetric", batch=batch, n=3)
+        c["mapping"] = [0] * 6
+        c["route"] = {"kind": "ctor", "mapping": "list"}
+        c["params"]["rates"] = [[2.0] for _ in c["params"]["rates"]]
+        c["params"]["frequencies"][0] = [1 / 3] * 3
+        cases.append(c)
+    c = special("MG94", code=rng.randrange(15))
+    for nm in ("alpha", "beta", "kappa"):
+        c["params"][nm] = [[1.0]]
+    c["params"]["frequencies"] = [[1.0 / c["n"]] * c["n"]]
+    cases.append(c)
+    # a second MG94 instance with the SAME sense codons but another genetic code built later in the same process
+    # (Yeast, Mold, Mycoplasma, Invertebrate, Echinoderm, Euplotid, Ascidian, Blepharisma all have 62 sense codons)
+    for code in rng.sample([2, 3, 5, 7, 8, 11, 13], 2):
+        cases.append(special("MG94", code=code))
     # construction routes: every class x every route x every subset of the optional keys
     for kind in ("JC69", "GeneralJC69", "LG", "WAG", "HKY", "GTR", "GeneralSymmetric", "GeneralNonSymmetric", "MG94"):
         for rk in ("kw", "json", "cli"):
@@ -265,6 +321,11 @@ def run(ck: Check):
     ok, broken = ck.lean_side({"TTGen/C04Tables.lean": lean_src, "TTGen/C04Options.lean": opt_src},
                               ["TTModel.C04_Subst", "TTGen.C04Tables", "TTGen.C04Options", "TTProofs.Props.C04", "drv_c04"],
                               "TTProofs/Props/C04.lean")
+    import c05 as _c05
+
+    ck.extra["tensor_constructors_without_dtype"] = _c05.scan_constructors(
+        ["torchtree/evolution/substitution_model/" + f for f in
+         ("abstract.py", "nucleotide.py", "general.py", "codon.py", "amino_acid.py")])
     drv = None
     try:
         drv = ck.driver("drv_c04")
@@ -273,8 +334,32 @@ def run(ck: Check):
 
     failures = []
 
+    counter = [0]
+
     def explore(c, with_model=True):
+        # anything unexpected read from the implementation is a recorded mismatch, never a harness crash
+        try:
+            _explore(c, with_model)
+        except Exception as e:
+            ck.mismatch("harness could not interpret the implementation's output", {"case": c, "error": repr(e)[:300]})
+
+    def _explore(c, with_model=True):
         outs = M.impl_eval(c)
+        counter[0] += 1
+        if outs[0]["status"] == "ok" and counter[0] % 4 == 0 and c["kind"] != "MG94":
+            # evaluation under no_grad / with leaves requiring grad must agree bitwise with the plain one
+            for mode in ("no_grad", "requires_grad"):
+                alt = M.impl_eval(dict(c, grad=mode, deepcopy=False))
+                same = len(alt) == len(outs) and all(
+                    a["status"] == b["status"] and (a["status"] != "ok" or (
+                        all(np.array_equal(x, y) for x, y in zip(a["Q"], b["Q"]))
+                        # p_t: torch's eigh/inverse/matmul kernels may differ by an ulp when a graph is recorded
+                        and np.abs(a["P"] - b["P"]).max() <= (1e-6 if M.low_precision(c) else 1e-14)))
+                    for a, b in zip(alt, outs))
+                if not same:
+                    ck.mismatch("evaluation differs under grad mode " + mode, {"case": c})
+                    failures.append((dict(c, grad=mode, deepcopy=False), "grad_mode_changes_values", {"mode": mode}))
+        ck.bucket("regime=" + M.regime_of(c) + ("/deepcopy" if c.get("deepcopy") else "") + ("/move" if c.get("move") else ""))
         trivial = c["kind"] in ("JC69", "LG", "WAG")
         route = c.get("route") or {"kind": "ctor"}
         ck.bucket("route=" + route["kind"] + "".join(f"/{x}={route[x]}" for x in ("mapping", "normalize") if x in route))
@@ -322,6 +407,21 @@ def run(ck: Check):
     for c in plan(ck):
         explore(c)
 
+    if ck.mismatches and not failures:
+        # an object built late in this process must behave like one built in a fresh process (module-level caches,
+        # memo tables): re-evaluate the mismatching cases in a fresh interpreter
+        seen_kinds = set()
+        for mm in ck.mismatches:
+            cc = mm["detail"].get("case")
+            if not cc or cc["kind"] in seen_kinds or len(seen_kinds) >= 3:
+                continue
+            seen_kinds.add(cc["kind"])
+            here = M.impl_eval(cc)[0]
+            fresh = fresh_process_q(cc)
+            if here["status"] == "ok" and fresh is not None and any(
+                    np.abs(a - b).max() > 1e-12 * max(1.0, np.abs(b).max()) for a, b in zip(here["Q"], fresh)):
+                failures.append((cc, "differs_from_fresh_process", {"max_dev": float(max(
+                    np.abs(a - b).max() for a, b in zip(here["Q"], fresh)))}))
     if (not ok or ck.mismatches) and not failures:
         kinds = ["HKY", "GTR", "GeneralSymmetric", "GeneralNonSymmetric", "Empirical", "MG94", "JC69", "GeneralJC69",
                  "LG", "WAG"]
@@ -349,6 +449,9 @@ def run(ck: Check):
             out = outs[k]
             det = M.oracle(M.state_at(small, k), out) if out["status"] == "ok" else [("raises", out["error"])]
             det = [d for d in det if d[0] == name] or det
+            if name == "differs_from_fresh_process":
+                det = [(name, dict(detail, note="q() of this object, built after the other objects of this run, differs "
+                                   "from q() of the same case evaluated in a fresh interpreter"))]
             after = f" after {len(small.get('updates', []))} parameter assignment(s) on a live object" if small.get("updates") else ""
             ck.violation(sig, f"{c['kind']} violates {name}{after}: {json.dumps(det[:1], default=str)[:300]}",
                          {"case": small, "detail": det[:3], "broken_obligations": broken,
@@ -360,8 +463,35 @@ def run(ck: Check):
                      found_input=False)
 
 
+def fresh_process_q(c):
+    """q() of the same case evaluated in a fresh interpreter (no history in the process)"""
+    import os
+    import subprocess
+    import tempfile
+
+    with tempfile.NamedTemporaryFile("w", suffix=".json", delete=False) as f:
+        json.dump(c, f)
+        path = f.name
+    code = ("import sys, json; sys.path.insert(0, %r); sys.path.insert(0, %r); from common import use_repo; use_repo();"
+            "import torch; torch.set_num_threads(1); torch.set_default_dtype(torch.float64); import c04_models as M;"
+            "o = M.impl_eval(json.load(open(%r)))[0];"
+            "print(json.dumps([q.tolist() for q in o['Q']]) if o['status'] == 'ok' else 'null')"
+            % (str(VERIF / "harness"), str(VERIF / "harness" / "translators"), path))
+    try:
+        r = subprocess.run([sys.executable, "-c", code], capture_output=True, text=True, timeout=120,
+                           env=dict(os.environ))
+        val = json.loads(r.stdout.strip().splitlines()[-1]) if r.returncode == 0 and r.stdout.strip() else None
+        return None if val is None else [np.array(q) for q in val]
+    except Exception:
+        return None
+    finally:
+        os.unlink(path)
+
+
 def failing_steps(c, name):
     bad = []
+    if name == "differs_from_fresh_process":
+        return [0]
     for k, out in enumerate(M.impl_eval(c)):
         if out["status"] != "ok":
             if name == "raises":
